@@ -13,7 +13,7 @@ func c03AppDict() *datadictionary.DataDictionary {
 	grp := datadictionary.NewGroupFieldDef(datadictionary.NewFieldType("NoPartyIDs", 453, "NUMINGROUP"), false,
 		[]datadictionary.MessagePart{ft(448), ft(447)})
 	return &datadictionary.DataDictionary{
-		Messages: map[string]*datadictionary.MessageDef{"D": datadictionary.NewMessageDef("D", "D", []datadictionary.MessagePart{ft(11), ft(58), grp})},
+		Messages: map[string]*datadictionary.MessageDef{"D": datadictionary.NewMessageDef("D", "D", []datadictionary.MessagePart{ft(11), ft(58), grp, ft(528)})},
 	}
 }
 
@@ -84,7 +84,20 @@ func VerifHarness_C03_replay() {
 	orig := make([]verifWire, H+1)
 	for i := 1; i <= H; i++ {
 		m := NewMessage()
-		switch verifConc(ndInt("kind", 0, 2)) {
+		// quick: the messages carrying a repeating group are the last of the history; thorough: anywhere
+		maxKind := 3
+		if verifTier() == 0 && i < H {
+			maxKind = 1
+		}
+		switch verifConc(ndInt("kind", 0, maxKind)) {
+		case 3:
+			// the body BEGINS with the repeating group (its counter has the lowest tag of the body)
+			isApp[i] = true
+			m.Header.SetString(tagMsgType, "D")
+			g := NewRepeatingGroup(453, GroupTemplate{GroupElement(448), GroupElement(447)})
+			g.Add().SetBytes(448, verifValueN("party", 1))
+			m.Body.SetGroup(g)
+			m.Body.SetBytes(Tag(528), verifValueN("cap", 1))
 		case 0:
 			m.Header.SetString(tagMsgType, "0")
 		case 1:
